@@ -6,7 +6,7 @@ import ast
 from sa.absint import Evaluator, all_effects
 from sa.index import AnalysisError
 from sa.terms import App, Const, Ref, Sym, cases, subterms
-from . import argname, frozen
+from . import argname, frozen, generic
 from .c04 import strip_sites
 
 EXPLANATION = ("abstract evaluation of the two extraction commands: the string keys of the decoded envelope map are "
@@ -55,9 +55,12 @@ def run(ctx):
     fq = ctx.fq(fi)
     outs = ev.outcomes(fi)
     rets = [o for o in outs if o.kind == "return"]
-    if len(rets) != 1:
-        raise AnalysisError(f"{fq}: expected one normal outcome, found {len(rets)}")
+    if not rets:
+        raise AnalysisError(f"{fq}: no normal outcome")
+    # the main outcome is the one that runs the loops; any other normal outcome (an early return) is checked against it below
+    rets.sort(key=lambda x: -len(loops_of([strip_sites(e) for e in x.effects])))
     o = rets[0]
+    early = rets[1:]
     L = strip_sites(App("cborload", (P("envelope_data"),)))
     raw, copy = env_map_of(L)
     eff = [strip_sites(e) for e in o.effects]
@@ -86,6 +89,27 @@ def run(ctx):
     lpB, add = extraction[0]
     lpC, rec = recursion[0]
     itB, itC = lpB.args[0], lpC.args[0]
+    R.rule("C11-D1h every level is processed", 1, "no normal exit skips the extraction loop or the dependency loop unless its guard says the list is empty")
+
+    def implies_empty(conds, it):
+        for c in conds:
+            c = strip_sites(c)
+            if c in (App("not", (it,)), App("==", (App("len", (it,)), Const(0))), App("<", (App("len", (it,)), Const(1)))):
+                return True
+        return False
+    bad_early = []
+    for x in early:
+        xl = loops_of([strip_sites(e) for e in x.effects])
+        has_ext = any(lp.args[0] == itB for lp in xl)
+        has_rec = any(lp.args[0] == itC for lp in xl)
+        if not (has_ext or implies_empty(x.conds, itB)):
+            bad_early.append((x, "selected payloads stay in the envelope"))
+        if not (has_rec or implies_empty(x.conds, itC)):
+            bad_early.append((x, "dependency envelopes are not processed"))
+    R.check("C11-D1h every level is processed", not bad_early, f"{len(early)} early return(s)", mod=fi.module,
+            node=bad_early[0][0].node if bad_early else fi.node, function=fq,
+            expected="every normal exit has extracted the selected payloads and recursed into every dependency of this level",
+            found="; ".join(f"return under {[repr(strip_sites(c))[:90] for c in x.conds[-2:]]}: {why}" for x, why in bad_early)[:400])
     # every regex use is fullmatch with (pattern parameter, key)
     rx = regex_calls(itB) + regex_calls(itC)
     names = {r.op for r in rx}
@@ -180,6 +204,7 @@ def run(ctx):
 
     file_level(ctx, ev)
     single_extract(ctx, ev)
+    generic.serializer_options(ctx, "C11-D1i serializer options", (CC, PX), 2, "members that are not moved keep their bytes and their order")
     R.rule("C11-D2 extraction path executable with installed cbor2", 1, "no in-place mutation of decoded tag content")
     frozen.check(ctx, "C11-D2 extraction path executable with installed cbor2", [CC, PX], {})
 
